@@ -13,7 +13,7 @@ def run(chk):
     vlib.expect_mc_ok(chk, res, 'MC_Matrix')
     nproc, per = (12, 14) if chk.quick else (14, 360)
     rs = vlib.tlc_parallel([dict(module='MC_Matrix', cfg='MC_Matrix_sim.cfg', workers=1, xss='64m', timeout=7000,
-                                 simulate='num=%d' % per, depth=170, extra=['-seed', str(chk.seed + 101 * i)],
+                                 simulate='num=%d' % per, depth=250, extra=['-seed', str(chk.seed + 101 * i)],
                                  tag='MC_Matrix[simulate %d]' % i) for i in range(nproc)], max_parallel=14)
     behaviours = []
     for i, r in enumerate(rs):
